@@ -4,7 +4,7 @@ from props import pkg_ob
 def obligations():
     return [Ob('O13.1-discovery-2', 'discovery_order independent of hash iteration order, Main + 2 packages', pkg_ob.ob_discovery, ('quick', 'thorough'), 1, dict(pkgs=['A', 'B'])),
             Ob('O13.1-discovery-3', 'discovery_order independent of hash iteration order, Main + 3 packages', pkg_ob.ob_discovery, ('quick', 'thorough'), 20, dict(pkgs=['A', 'B', 'C'])),
-            Ob('O13.2-topo-order-2', 'topo_sort_packages result independent of hash iteration order', pkg_ob.ob_topo, ('quick', 'thorough'), 5, dict(pkgs=['A', 'B'], self_imports=False))] + __import__('props.traitimpl_ob', fromlist=['x']).obligations() + __import__('props.resolve_ob', fromlist=['x']).obligations_c13() + __import__('props.pat_ob', fromlist=['x']).obligations_c13() + __import__('props.c15', fromlist=['x']).obligations_c13() + __import__('props.matchdet_ob', fromlist=['x']).obligations_c13()
+            Ob('O13.2-topo-order-2', 'topo_sort_packages result independent of hash iteration order', pkg_ob.ob_topo, ('quick', 'thorough'), 5, dict(pkgs=['A', 'B'], self_imports=False))] + __import__('props.traitimpl_ob', fromlist=['x']).obligations() + __import__('props.resolve_ob', fromlist=['x']).obligations_c13() + __import__('props.pat_ob', fromlist=['x']).obligations_c13() + __import__('props.c15', fromlist=['x']).obligations_c13() + __import__('props.matchdet_ob', fromlist=['x']).obligations_c13() + __import__('props.mono_ob', fromlist=['x']).obligations_c13()
 META = {
     'level': 'other',
     'explanation': 'Bounded solver-checked obligation over the real package discovery (MIR of discover_packages_with_layout / topo_sort_packages of the current tree): the import graph is symbolic (every import bit a solver variable) and the iteration order of every std HashSet/HashMap is a symbolic permutation; for each graph all feasible executions must return the same discovery / build order. A dependence on iteration order is replayed by running the real CLI repeatedly (each process draws fresh hash keys) on a project generated from the counterexample.',
